@@ -10,7 +10,8 @@ DOMAIN = 'scopes'
 PROPS_FILES = ['Gin/Props/C09.lean']
 ANCHOR_FILES = ['config.py']
 RULE = ('1-4 real threads, each running its own random tree of nested `with gin.config_scope(arg)` blocks (arg: name, '
-        "'a/b' shorthand, explicit list, None, '', invalid names / objects; depth up to 4), observations "
+        "'a/b' and longer 'a/b/c/..' shorthand, explicit list, the very list the enclosing block yielded, None, '', "
+        'invalid names / objects; depth up to 4), observations '
         '(current_scope() plus the value a scoped probe configurable receives; in half of the multi-thread cases also a call of '
         'one shared scoped callable with a scheduling point inside the call) and exceptions raised at random depth; '
         'threads advance one scheduling group at a time under a deterministic baton scheduler following a random '
@@ -45,8 +46,11 @@ def gen_arg(rng, w_invalid=0.08):
                        {'k': 'invalid', 'v': 'cmp-raises'}])
   if r < 0.55:
     return {'k': 'name', 'v': rng.choice(G.ALPHA)}
-  if r < 0.72:
+  if r < 0.66:
     return {'k': 'name', 'v': rng.choice(G.ALPHA) + '/' + rng.choice(G.ALPHA)}
+  if r < 0.72:
+    # shorthand names of three and more components: every component is appended, in order
+    return {'k': 'name', 'v': '/'.join(rng.choice(G.ALPHA) for _ in range(rng.randint(3, 5)))}
   if r < 0.85:
     return {'k': 'list', 'v': [rng.choice(G.ALPHA) for _ in range(rng.randint(0, 3))]}
   return {'k': 'clear', 'v': rng.choice([None, ''])}
@@ -76,6 +80,10 @@ def gen_items(rng, depth, budget):
       items.append({'k': 'catch', 'body': gen_items(rng, depth, budget)})
     elif depth < 4:
       arg = gen_arg(rng)
+      if depth >= 1 and rng.random() < 0.15:
+        # the very list object the enclosing block handed out (`with config_scope(x) as s: with config_scope(s):`)
+        # is entered again: the scope stays what it is, and so it does after leaving the inner block
+        arg = {'k': 'same'}
       item = {'k': 'block', 'arg': arg, 'body': gen_items(rng, depth + 1, budget)}
       if arg['k'] == 'name' and depth >= 1 and rng.random() < 0.3:
         # the context-manager object is created when the thread starts (top level) and entered here:
@@ -225,6 +233,7 @@ def run_impl(case):
     precreate(case['threads'][tid])
     obs = []
     notes, held = [], []
+    handed = []          # the lists handed out by the blocks the thread is inside of, innermost last
     fobs = []            # what the handle fetched at the previous observation point receives here
     handle = [None]
     outcome = 'normal'
@@ -254,13 +263,24 @@ def run_impl(case):
         elif it['k'] == 'raise':
           raise (Interrupt() if it.get('base') else Boom())
         else:
-          with (early.pop(id(it)) if id(it) in early else gin.config_scope(scope_arg(it['arg']))) as yielded:
+          if it['arg']['k'] == 'same':
+            # the identical list object that the enclosing block yielded (outside any block: a list equal to the active scope)
+            cm = gin.config_scope(handed[-1] if handed else list(gin.current_scope()))
+          elif id(it) in early:
+            cm = early.pop(id(it))
+          else:
+            cm = gin.config_scope(scope_arg(it['arg']))
+          with cm as yielded:
             # what the block hands out is the scope that is active inside it; lists handed out earlier stay what they were
             now = gin.current_scope()
             if list(yielded) != list(now):
               notes.append(f'`with config_scope(...) as s` handed out {list(yielded)} while the active scope is {list(now)}')
             held.append((now, list(now)))
-            run(it['body'])
+            handed.append(yielded)
+            try:
+              run(it['body'])
+            finally:
+              handed.pop()
             st.checkpoint(tid)
     try:
       try:
@@ -306,8 +326,34 @@ def run_impl(case):
   return {'threads': results, 'main_scope': list(gin.current_scope())}
 
 
+def _inner_scope(arg, cur):
+  if arg['k'] == 'name' and arg['v']:
+    return cur + str(arg['v']).split('/')
+  if arg['k'] == 'list':
+    return list(arg['v'])
+  if arg['k'] == 'same':
+    return list(cur)
+  return []
+
+
+def resolve_same(items, cur):
+  """For the model: entering the list a block handed out is entering the explicit list that is active there (the
+  scope inside a block is a function of the program text alone)."""
+  out = []
+  for it in items:
+    if it['k'] == 'catch':
+      it = dict(it, body=resolve_same(it['body'], cur))
+    elif it['k'] == 'block':
+      new = _inner_scope(it['arg'], cur)
+      arg = {'k': 'list', 'v': list(cur)} if it['arg']['k'] == 'same' else it['arg']
+      it = dict(it, arg=arg, body=resolve_same(it['body'], new))
+    out.append(it)
+  return out
+
+
 def to_driver(case, impl):
-  return {'dom': 'scopes', 'threads': case['threads'], 'binds': case['binds'], 'schedule': case['schedule']}
+  return {'dom': 'scopes', 'threads': [resolve_same(t, []) for t in case['threads']], 'binds': case['binds'],
+          'schedule': case['schedule']}
 
 
 def compare(case, impl, model):
@@ -364,6 +410,8 @@ def naive(items, cur, binds, obs):
         new = cur + a['v'].split('/')
       elif a['k'] == 'list':
         new = list(a['v'])
+      elif a['k'] == 'same':
+        new = list(cur)     # the list the enclosing block handed out is the scope active there
       elif a['k'] == 'clear':
         new = []
       else:
